@@ -178,7 +178,7 @@ func runSearch(d *dir, t time.Time, budget, faultAt, faultKind int) result {
 		if seq > uint64(d.N) || !d.present(int(seq)) {
 			return fakehttp.Response{Status: 404, Body: []byte("<html>404 Not Found</html>\n")}, true
 		}
-		return fakehttp.Response{Body: stateBody(d.Kind, seq, d.ts(int(seq)))}, true
+		return fakehttp.Response{Body: stateBodyNumbered(d.Kind, seq, d.ts(int(seq)), true)}, true
 	}
 	ds := &replication.Datasource{BaseURL: d.Base, Client: tr.Client()}
 
@@ -536,7 +536,7 @@ func checkURL(r *kit.Run, c Case) {
 	switch c.Op {
 	case "state":
 		wantURL = d.stateURL(c.Seq)
-		body = stateBody(c.Kind, c.Seq, when)
+		body = stateBodyNumbered(c.Kind, c.Seq, when, true)
 	case "current":
 		wantURL = d.stateURL(0)
 		body = stateBody(c.Kind, c.Seq, when)
